@@ -11,6 +11,7 @@ from __future__ import print_function, annotations
 
 import json
 import logging
+import math
 import operator
 import os
 import threading
@@ -163,10 +164,11 @@ class StatusMonitor:
                 self.log.warning("No stage weight for stage %s. Default to %lf\n" % (stage, fallbackWeight))
                 weights.append(fallbackWeight * 1000)
 
-        # VV: adding floats is hard, let's assume that there're at most 2 decimals
-        int_weights = [int(e * 1000) for e in weights]
+        # VV: adding floats is hard, tolerate tiny rounding errors. Weights must be proper fractions
+        #     (this also rejects negative weights, NaN, and inf) which add up to 1.0
+        weights_valid = all(0.0 <= e <= 1.0 for e in weights) and abs(math.fsum(weights) - 1.0) <= 1e-6
 
-        if reduce(operator.add, int_weights) != 1000:
+        if not weights_valid:
             self.log.warning("Stage weights do not add to one: %s = %3.2lf\n" % (weights, reduce(operator.add, weights)))
             self.log.warning("All stage-weights will default to %3.2lf\n" % fallbackWeight)
             weights = [fallbackWeight]*len(self.commands)
